@@ -481,6 +481,7 @@ def eaGenerateUpdate(toolbox, ngen, halloffame=None, stats=None,
     logbook = tools.Logbook()
     logbook.header = ['gen', 'nevals'] + (stats.fields if stats else [])
 
+    population = []
     for gen in range(ngen):
         # Generate a new population
         population = toolbox.generate()
